@@ -59,6 +59,7 @@ def step (st : St) : List String → St × String
       let r := advance st.cfg st.w n
       ({ st with w := r.1, clk := n }, s!"n={r.2.length} f={showIds r.2}")
     | none => (st, "bad-op")
+  | ["vclock"] => (st, "virtual")
   | ["pending"] => (st, toString st.w.entries.length)
   | ["dump"] => (st, dump st.cfg st.w)
   | ["drain", t] =>
